@@ -16,6 +16,8 @@ fn receive_part() -> String {
         r##"  <transition event="mi"><script>{p}</script></transition>
   <transition event="m"><script>{p}</script><send eventexpr="'reply.' + _event.name" targetexpr="_event.origin" typeexpr="_event.origintype"/></transition>
   <transition event="reply"><script>{p}</script></transition>
+  <transition event="md"><script>{p}</script><send eventexpr="'reply.' + _event.name" targetexpr="_event.origin" typeexpr="_event.origintype"/></transition>
+  <transition event="bar"><script>{p}</script></transition>
   <transition event="relay"><script>{p}</script><script>mark('deep', _event.data.o.k[1].z, _event.data.o.s)</script><send event="m.relayed" targetexpr="_event.origin" typeexpr="_event.origintype"><param name="o" expr="_event.data.o"/></send></transition>
   <transition event="done.invoke"><script>{p}</script></transition>
   <transition event="error"><script>mark('err', _event.name)</script></transition>"##,
@@ -85,6 +87,9 @@ fn parent_doc(dm: &str, bid: u32) -> String {
   <transition event="cmd.16"><send event="m.a16" target="#_scxml_{bid}" namelist="v"><param name="q" expr="w"/></send></transition>
   <transition event="cmd.17"><send event="mi.a17" target="#_internal" namelist="w v"><param name="z" expr="v + 1"/></send></transition>
   <transition event="cmd.18"><send event="m.a18" target="#_kid" namelist="w"><param name="p" expr="v"/><param name="q" expr="v + 2"/></send></transition>
+  <transition event="cmd.20"><send event="md.a20" targetexpr="'#_scxml_' + B" delay="20ms"><param name="p" expr="v"/></send></transition>
+  <transition event="cmd.21"><send event="md.a21" targetexpr="'#_' + 'kid'" delayexpr="'15ms'"><param name="p" expr="v + 1"/></send></transition>
+  <transition event="cmd.22"><send event="md.a22" target="#_scxml_{bid}" delay="10ms"/><send event="bar.a" delay="150ms"/></transition>
   <transition event="cmd.11"><send event="m.fenceA"/></transition>
   <transition event="cmd.12"><send event="m.fenceB" target="#_scxml_{bid}"/></transition>
   <transition event="cmd.13"><send event="m.fenceC" target="#_kid"/></transition>
@@ -162,6 +167,29 @@ fn routing(dm: &str, rep: &mut Report) {
     wait_stable(&mut a, 2); // m.c1, m.c2 from the child
     let aid = a.session.session_id;
     let mut sent = 2;
+    // delayed sends first (target computed by targetexpr / literal, delay / delayexpr); the session's own later-due
+    // `bar.a` tells when its timer has passed them, the fences at the end flush the routes they travel
+    for k in [20, 21, 22] {
+        a.send(&format!("cmd.{}", k));
+        sent += 1;
+        wait_stable(&mut a, sent);
+    }
+    {
+        let t0 = std::time::Instant::now();
+        loop {
+            if rec::snapshot_log().iter().any(|e| matches!(&e.ev, Ev::XRecv(ev) if ev.name == "bar.a")) {
+                break;
+            }
+            if t0.elapsed() > Duration::from_secs(90) {
+                rep.inconclusive(&format!("[{}] the session's own delayed barrier event did not arrive within the watchdog", dm));
+                a.finish();
+                b.finish();
+                let _ = rec::take_log();
+                return;
+            }
+            std::thread::sleep(Duration::from_millis(5));
+        }
+    }
     for k in [1, 2, 3, 4, 5, 6, 7, 8, 9, 10, 14, 15, 16, 17, 18, 11, 12, 13, 19] {
         a.send(&format!("cmd.{}", k));
         sent += 1;
@@ -283,6 +311,13 @@ fn routing(dm: &str, rep: &mut Report) {
         Want { skip_invokeid: false, name: "reply.m.a4", session: 'A', internal: false, origin_of: Some('B'), sendid: None, data: None, invokeid: false },
         Want { skip_invokeid: false, name: "reply.m.a5", session: 'A', internal: false, origin_of: Some('C'), sendid: None, data: None, invokeid: true },
         Want { skip_invokeid: false, name: "reply.m.a1", session: 'A', internal: false, origin_of: Some('A'), sendid: None, data: None, invokeid: false },
+        // delayed sends go to the same place as immediate ones (target by expression or literal)
+        Want { skip_invokeid: false, name: "md.a20", session: 'B', internal: false, origin_of: Some('A'), sendid: None, data: Some(map(&[("p", V::Int(5))])), invokeid: false },
+        Want { skip_invokeid: false, name: "md.a21", session: 'C', internal: false, origin_of: Some('A'), sendid: None, data: Some(map(&[("p", V::Int(6))])), invokeid: false },
+        Want { skip_invokeid: false, name: "md.a22", session: 'B', internal: false, origin_of: Some('A'), sendid: None, data: None, invokeid: false },
+        Want { skip_invokeid: false, name: "bar.a", session: 'A', internal: false, origin_of: Some('A'), sendid: None, data: None, invokeid: false },
+        Want { skip_invokeid: false, name: "reply.md.a20", session: 'A', internal: false, origin_of: Some('B'), sendid: None, data: None, invokeid: false },
+        Want { skip_invokeid: false, name: "reply.md.a21", session: 'A', internal: false, origin_of: Some('C'), sendid: None, data: None, invokeid: true },
         // an invoked session addresses a third session by id, and gets the reply
         Want { skip_invokeid: true, name: "m.c3", session: 'B', internal: false, origin_of: Some('C'), sendid: None, data: Some(map(&[("from", V::Str("child".into()))])), invokeid: false },
         Want { skip_invokeid: true, name: "reply.m.c3", session: 'C', internal: false, origin_of: Some('B'), sendid: None, data: None, invokeid: false },
